@@ -34,7 +34,7 @@ def run_case(case, rng):
     else:
         sp = G.random_spec(rng, "proper", n_max=n_max, allow_implicit=False,
                            reward_scale=rng.choice([1.0, 1.0, 1.0, 30.0, 1000.0]))
-    rep = rng.choice(["subclass", "quicktabular"])
+    rep = rng.choice(["subclass", "quicktabular", "subclass", "quicktabular", "dsp_override", "quick_override"])
     if rng.random() < 0.15:
         # None is a legal hashable action label for a planner (it only collides with the roll-out API's "no action")
         universe = sp.action_universe()
